@@ -379,7 +379,7 @@ impl Type for Vec<i8> {
             base_type: None,
             discriminator_type: None,
             bound: &[u32::MAX],
-            element_type: Some(u8::TYPE),
+            element_type: Some(i8::TYPE),
             key_element_type: None,
             extensibility_kind: ExtensibilityKind::Final,
             is_nested: false,
